@@ -87,11 +87,15 @@ NfBeh == Beh("no", "", "nf", FALSE, FALSE)
 NfSet == IF "nf" \in Rcs THEN {NfBeh} ELSE {}
 Beh1 == [rd : Rd1, out : Outs, rc : Rcs \ {"nf"}, slow : Slows, err : Errs] \cup {Default1} \cup NfSet
 BehK == [rd : RdK, out : Outs, rc : Rcs \ {"nf"}, slow : Slows, err : Errs] \cup {DefaultK} \cup NfSet
-Odd(s) == Cardinality({i \in DOMAIN s : s[i] # (IF i = 1 THEN Default1 ELSE DefaultK)})
+(* pipelines of 1..MaxN stages in which at most MaxOdd stages differ from the default stage (built position *)
+(* by position, so that the bound also bounds the sets TLC has to construct)                               *)
+Pick(i, P)  == IF i \in P THEN (IF i = 1 THEN Beh1 ELSE BehK) ELSE {IF i = 1 THEN Default1 ELSE DefaultK}
+OddSets(n)  == {P \in SUBSET (1..n) : Cardinality(P) <= MaxOdd}
 Pipelines ==
-    {s \in  {<<a>> : a \in Beh1}
-       \cup (IF MaxN >= 2 THEN {<<a, b>> : a \in Beh1, b \in BehK} ELSE {})
-       \cup (IF MaxN >= 3 THEN {<<a, b, d>> : a \in Beh1, b \in BehK, d \in BehK} ELSE {}) : Odd(s) <= MaxOdd}
+    UNION {{<<a>> : a \in Pick(1, P)} : P \in OddSets(1)}
+    \cup (IF MaxN >= 2 THEN UNION {{<<a, b>> : a \in Pick(1, P), b \in Pick(2, P)} : P \in OddSets(2)} ELSE {})
+    \cup (IF MaxN >= 3 THEN UNION {{<<a, b, d>> : a \in Pick(1, P), b \in Pick(2, P), d \in Pick(3, P)} : P \in OddSets(3)}
+          ELSE {})
 
 PipeApi(a)   == a \in {"call", "pipe", "write", "shell", "prov"}     \* subproc.Pipeline underneath
 StreamApi(a) == a \in {"connect", "provs"}                           \* streams.connect underneath
